@@ -13,6 +13,9 @@ F = 'enspara/ra/ra.py::'
 def prefix_sums(L, lens, name='PS'):
     n = L.len(lens)
     if L.sym:
+        import z3
+        if z3.is_const(lens.term) and lens.term.decl().kind() == z3.Z3_OP_UNINTERPRETED:
+            name = 'PS!' + lens.term.decl().name()      # one ghost per array: contracts about the same lengths share their prefix sums
         PS = L.func(name, 'int', 'int')
         ax = [PS(0) == 0, L.forall(0, n, lambda t: PS(t + 1) == PS(t) + lens[t]),
               L.sum(lens) == PS(n)]          # np.sum(L) is the last prefix sum (definition of the ghost)
